@@ -377,7 +377,15 @@ partial def typeNamesTArgs : TArgs → List String
   | .nil => []
   | .cons e r => typeNamesEOT e ++ typeNamesTArgs r
 partial def typeNamesTy : TyId → List String
-  | .mk _ n targs _ => n :: typeNamesTArgs targs
+  | .mk _ n targs d => n :: (typeNamesTArgs targs ++ typeNamesADecl d)
+/-- the array sizes of an abstract declarator are expressions (`(float[(S)x])y`) -/
+partial def typeNamesADecl : Decl → List String
+  | .empty => []
+  | .name _ => []
+  | .ptr _ d => typeNamesADecl d
+  | .ref d => typeNamesADecl d
+  | .arr d e => typeNamesADecl d ++ typeNamesX e
+  | .arrN d => typeNamesADecl d
 end
 
 /-- an identifier that the lexer reads as a keyword or that `parse_type_modifiers_before` takes as a modifier cannot be
